@@ -972,6 +972,8 @@ def check_C07(tier, seed):
                   rule="TLC enumerates every function x argument combination of the grid (strings: empty, ASCII, multi-byte, "
                        "254/255-character runs; positions and counts -1, 0, 1, 2, len, len+1, 255, 256, 32767, 2.5; codes at "
                        "the scalar-value limits; VAL prefixes; HEX$/OCT$ boundaries; all comparisons and concatenations), "
+                       "and compositions with several string temporaries (LEFT$+MID$ splits, LEFT$(RIGHT$()), MID$ of a concatenation, "
+                       "INSTR in a MID$, CHR$(ASC(MID$())), VAL(STR$()), VAL(\"&H\"+HEX$()), LEN(STRING$()+..)), "
                        "checks the laws relating the operators on the specification, and every case is replayed in the VM "
                        "(value, type, error code, printed text); MID$ assignment over the same grid as sessions; "
                        "non-trivial = cases ending in an error or a non-empty / non-zero result",
